@@ -435,6 +435,44 @@ def cbtn_channel_one(p):
         raise Violation("cb trace norm of a %s channel = %.8f, not 1 (d=%d)" % (p["kind"], a, p["d"]))
 
 
+def _axb_choi(p):
+    d = p["d"]
+    rng = np.random.default_rng([p.get("seed", 0), d, 97])
+    real = p.get("field") == "real"
+    A = rng.standard_normal((d, d)) + (0 if real else 1j * rng.standard_normal((d, d)))
+    B = rng.standard_normal((d, d)) + (0 if real else 1j * rng.standard_normal((d, d)))
+    J = np.zeros((d * d, d * d), dtype=float if real else complex)
+    for i in range(d):
+        for j in range(d):
+            E = np.zeros((d, d))
+            E[i, j] = 1
+            J = J + np.kron(E, A @ E @ B.conj().T)
+    return J, A, B
+
+
+def cbtn_rank_one_map(p):
+    """X -> A X B^dagger (not Hermiticity preserving for A != B): cb trace norm = ||A||_op ||B||_op"""
+    from vt.contract import Violation
+
+    J, A, B = _axb_choi(p)
+    exp = _opnorm(A) * _opnorm(B)
+    a = _cbtn(J)
+    if not abs(a - exp) <= TOL_CVXOPT * max(1, exp):
+        raise Violation("X -> A X B^dagger (d=%d, %s): cb trace norm = %.8f, ||A|| ||B|| = %.8f" % (p["d"], p.get("field", "complex"), a, exp))
+
+
+def cbsn_rank_one_map(p):
+    """X -> A X B^dagger: cb spectral norm = ||A||_op ||B||_op as well"""
+    from toqito.channel_metrics import completely_bounded_spectral_norm
+    from vt.contract import Violation
+
+    J, A, B = _axb_choi(p)
+    exp = _opnorm(A) * _opnorm(B)
+    a = _finite(completely_bounded_spectral_norm(J), "completely_bounded_spectral_norm")
+    if not abs(a - exp) <= TOL_CVXOPT * max(1, exp):
+        raise Violation("X -> A X B^dagger (d=%d, %s): cb spectral norm = %.8f, ||A|| ||B|| = %.8f" % (p["d"], p.get("field", "complex"), a, exp))
+
+
 def _dual_of_identity(info):
     return _herm(sum(k.conj().T @ k for k in info["kraus"]))
 
@@ -736,6 +774,8 @@ CLAUSES = {
     "dd.unitary_invariant": dd_unitary_invariant,
     "dd.pauli_closed_form": dd_pauli,
     "cbtn.channel_is_1": cbtn_channel_one,
+    "cbtn.rank_one_map": cbtn_rank_one_map,
+    "cbsn.rank_one_map": cbsn_rank_one_map,
     "cbtn.cp_ge_opnorm": cbtn_cp_ge,
     "cbtn.cp_le_opnorm": cbtn_cp_le,
     "cbtn.homogeneous": cbtn_homogeneous,
@@ -830,6 +870,10 @@ def cases(tier, seed):
                 add("cf.unitary_pair_ge", prm, "cf/unitary-pair/haar/d=%d" % d)
                 add("cf.unitary_pair_le", prm, "cf/unitary-pair/haar/d=%d" % d)
     # ---------------- cb trace norm
+    for d_ in (2, 3):
+        for field in ("complex", "real"):
+            add("cbtn.rank_one_map", dict(d=d_, field=field, seed=seed), "cbtn/non-hermiticity-preserving/AXB/%s" % field)
+            add("cbsn.rank_one_map", dict(d=d_, field=field, seed=seed), "cbsn-AXB/non-hermiticity-preserving/%s" % field)
     for d in (2, 3):
         for kind in ("unitary", "mixed-unitary", "pauli", "cptp", "replacer", "amplitude-damping", "identity"):
             for s in seeds:
@@ -934,6 +978,11 @@ from props.C20_prove import EXTRA_CLAUSES as _EXTRA20  # noqa: E402
 from props.C20_prove import prove  # noqa: E402,F401
 
 CLAUSES.update(_EXTRA20)
+LEVEL_TEXT = LEVEL_TEXT + (" Proved (E1-prog, all dimensions): outside its channel / completely-positive shortcuts completely_bounded_trace_norm builds Watrous' program "
+                           "min ||Tr_2 Y0|| + ||Tr_2 Y1|| s.t. Y0, Y1 >= 0, [[Y0, -J], [-J^*, Y1]] >= 0, solves it once with the caller's solver and returns half its optimum; "
+                           "channel_fidelity builds max lambda s.t. [[J1, Q^*], [Q, J2]] >= 0, (Tr_2 Q + (Tr_2 Q)^*) / 2 >= lambda I and returns its optimum (SCS at the caller's eps).")
+TRUSTED.append("E1-prog (program contracts): matrices and solver variables are uninterpreted terms; picos / cvxpy semantics assumed by name (>> Loewner order, block / bmat, diag, sum, trace, SpectralNorm, partial_trace of a variable with its index and dimensions argument); the solver returns the optimum of the program it is handed (certified only on the bounded tier); objectives compared modulo real linear arithmetic")
+TECHNIQUE = "program contracts of the SDP builders and term contracts of the derived norms (VCs from the real AST, z3); frame clauses by taint analysis; run-time-checked contracts over a bounded domain (bounded stand-in) for every value"
 
 # =============================================================================================
 # frame coverage shared by all properties (E2 obligations for every public function of the anchor files + run-time frame cases)
